@@ -11,6 +11,7 @@ import YangVerif.Drv.C08
 import YangVerif.Drv.C09
 import YangVerif.Drv.C12
 import YangVerif.Drv.C15
+import YangVerif.Drv.C19
 
 def dispatch (line : String) : String :=
   match (line.trimAscii.toString.splitOn " ").filter (· ≠ "") with
@@ -23,6 +24,7 @@ def dispatch (line : String) : String :=
   | "c09" :: rest => YangVerif.Drv.C09.handle rest
   | "c12" :: rest => YangVerif.Drv.C12.handle rest
   | "c15" :: rest => YangVerif.Drv.C15.handle rest
+  | "c19" :: rest => YangVerif.Drv.C19.handle rest
   | _ => "bad-op"
 
 partial def loop (h : IO.FS.Stream) (out : IO.FS.Stream) : IO Unit := do
